@@ -107,6 +107,10 @@ type clientOpt struct {
 	// Sibling: another Client is built first on the very same *tls.Config (never connected), with Insecure on
 	// ("insecure") or off ("strict"): what one client does to the configuration must not leak into the other
 	Sibling string
+	// Echo: instead of the silent catch-all route the application answers every message with a message and has no
+	// route for IQs (so the router's own feature-not-implemented reply goes out): whatever reaches the router is
+	// answered on the wire
+	Echo bool
 }
 
 func newTestClient(addr string, o clientOpt) (*xmpp.Client, *recorder, error) {
@@ -117,7 +121,16 @@ func newTestClient(addr string, o clientOpt) (*xmpp.Client, *recorder, error) {
 func newTestClientCfg(addr string, o clientOpt) (*xmpp.Client, *recorder, *xmpp.Config, error) {
 	rec := newRecorder()
 	router := xmpp.NewRouter()
-	router.NewRoute().HandlerFunc(rec.onPacket)
+	if o.Echo {
+		router.NewRoute().Packet("message").HandlerFunc(func(s xmpp.Sender, p stanza.Packet) {
+			rec.onPacket(s, p)
+			m := stanza.NewMessage(stanza.Attrs{To: "a@localhost/r", Id: "echo"})
+			m.Body = "echo"
+			_ = s.Send(m)
+		})
+	} else {
+		router.NewRoute().HandlerFunc(rec.onPacket)
+	}
 	jid := o.Jid
 	if jid == "" {
 		jid = "user@localhost/res"
